@@ -48,8 +48,51 @@ def shape_keys(r, shape):
     return []
 
 
+def make_epoch_workload(seed):
+    """sessions entering/leaving around retires, with the library's epoch and gc threads scheduled
+    and random stalls (a thread held back until the global epoch has advanced)"""
+    r = random.Random("epoch/%d" % seed)
+    lines = ["storage 61", "bg 1", "auto_session 0"]
+    pre = {}
+    keys = [b"k%d" % i for i in range(r.choice([1, 2, 4]))] + [b"prefix__long%d" % i for i in range(r.choice([0, 1]))]
+    for k in keys:
+        v = b"value_of_" + k
+        lines.append("pre put %s %s" % (hx(k), hx(v)))
+        pre[k] = v.hex()
+    nthreads = r.choice([2, 2, 3])
+    for t in range(nthreads):
+        lines.append("thread %d" % t)
+        if r.random() < 0.5:
+            lines.append("op sleep_epochs %d" % r.choice([1, 2, 3]))
+        for sess in range(r.choice([1, 2])):
+            lines.append("op enter")
+            for i in range(r.choice([1, 2, 3, 4])):
+                k = r.choice(keys)
+                x = r.random()
+                if x < 0.3:
+                    lines.append("op get %s" % hx(k))
+                elif x < 0.5:
+                    lines.append("op remove %s" % hx(k))
+                elif x < 0.75:
+                    lines.append("op put %s %s 0" % (hx(k), hx(b"v%d_%d_%d_long_enough" % (t, sess, i))))
+                elif x < 0.9:
+                    lines.append("op sleep_epochs %d" % r.choice([1, 2, 4]))
+                else:
+                    lines.append("op scan - F - F 0 0")
+            lines.append("op hold")
+            lines.append("op leave")
+    # stalls: (field, kind) pairs of the enter/retire protocol: begin-epoch store (7,1), epoch load (8,0),
+    # running CAS (6,2), begin-epoch load (7,0)
+    for _ in range(r.choice([0, 1, 1, 2])):
+        f, kd = r.choice([(7, 1), (7, 1), (8, 0), (6, 2), (7, 0)])
+        lines.append("stall %d %d %d %d %d" % (r.randrange(nthreads), f, kd, r.choice([1, 1, 2]), r.choice([1, 2, 3])))
+    return "\n".join(lines) + "\n", pre, {"shape": "epoch", "threads": nthreads, "kind": "epoch"}
+
+
 def make_workload(seed, kind, shape=None):
     """returns (text, pre dict, meta)"""
+    if kind == "epoch":
+        return make_epoch_workload(seed)
     r = random.Random("%s/%d" % (kind, seed))
     shapes = ["empty", "single", "full", "two_level", "layers", "sparse", "three_level", "deep_layers",
               "layer_full", "layer_single", "layer_two_level"]
